@@ -34,7 +34,7 @@ class Unit:
                  abstract=None, module_consts=None, safety=('index', 'div'), trusted=False, short=None,
                  doc='', while_bound=6, fresh_attr=None, canary=None, timeout_ms=8000, defaults=None,
                  exec_cls=None, self_class=None, cases=None, store='ite', sum_split=False, native_obj=None,
-                 native_call=None, variant=None, yields=None):
+                 native_call=None, variant=None, yields=None, fresh_result=False):
         self.props = [props] if isinstance(props, str) else list(props)
         self.qualname = qualname
         # several units may put the same function under contract (e.g. Contribution.prepare once per subclass whose
@@ -73,6 +73,9 @@ class Unit:
         # through the public API and calls the function; a second call on the SAME object must satisfy the contract
         # for the second inputs (stale caches, leftovers of earlier calls)
         self.native_obj, self.native_call = native_obj, native_call
+        # the caller owns the result: it is a new object (sym: allocated during the call; native: the result of one call
+        # is modified in place and the call repeated -- the contract must hold again)
+        self.fresh_result = fresh_result
         if native is None and native_obj is not None:
             self.native = lambda c, p: native_call(c, native_obj(c, p), p)
         self._view0 = None
@@ -202,6 +205,8 @@ class UnitResult:
         self.covers = {}
         self.canary = None
         self.lib_used = []
+        self.notes = []          # e.g. callees without contract that were executed in place
+        self.deps = {}           # bodies executed in place: qualname -> hash of the AST
         self.violation = None    # dict for the replay file
         self.undecided = []
         self.smt = {}            # name -> smt2 text (kept for cross-check / dump)
@@ -262,6 +267,9 @@ def build_obligations(unit, c):
                 c.raw = {'ret': p, 'state': s, 'env': env}              # identities (heap references) for such contracts
                 for name, g in _named(unit.post(c, v0, v1, ret)):
                     ex.oblige('post.%s' % name, s, g, None)
+            if unit.fresh_result:
+                ex.oblige('post.fresh_result', s, isinstance(p, Ref) and p.id not in heap0, None,
+                          note='the returned object must be allocated by this call (the caller may modify it)')
             # frame: every parameter array cell outside the frame is unchanged
             for pname, r in env.items():
                 if isinstance(r, Ref) and pname not in unit.frame:
@@ -390,6 +398,10 @@ def verify_unit(unit, tier='quick', dump_dir=None):
             res.error = ('engine', label + 'no feasible path through the function (vacuous)')
             return res
         sum_extensionality(c)
+        for nt in ex.notes:
+            if nt not in res.notes:
+                res.notes.append(nt)
+        res.deps.update(getattr(ex, 'deps', {}))
         ctxs.append((label, c, ex))
         todo = []
         for o in ex.obls:
@@ -543,6 +555,8 @@ def native_check(unit, values, obj=None, keep=None):
                 ret, after = unit.native_call(c, obj, raw)
             else:
                 ret, after = native(c, raw)
+            if keep is not None:
+                keep['ret'] = ret
     except Exception as e:          # the real function raised
         exc = e
     c.trace = after.pop('__trace__', None) if isinstance(after, dict) else None
@@ -651,32 +665,90 @@ def bmc_falsify(unit, max_models=4, timeout_ms=8000):
     return found, tried, notes
 
 
+def _related(rng, vals):
+    """inputs related to an earlier call: same sizes, same first and last element of every list of numbers, interior
+    elements (and scalars, sometimes) slightly moved -- the histories on which results kept from an earlier call and
+    looked up by an incomplete key go wrong"""
+    out = copy.deepcopy(vals)
+    keys = [k for k, v in out.items() if isinstance(v, list) and len(v) >= 3 and all(isinstance(x, float) for x in v)]
+    rng.shuffle(keys)
+    for k in keys[:max(1, rng.randint(1, len(keys)))] if keys else []:
+        v = out[k]
+        for j in range(1, len(v) - 1):
+            if rng.random() < 0.7:
+                lo, hi = sorted((v[j - 1], v[j + 1]))
+                v[j] = v[j] + (hi - lo) * rng.uniform(-0.2, 0.2) if hi > lo else v[j] * (1 + rng.uniform(-1e-3, 1e-3))
+    if not keys or rng.random() < 0.3:
+        sc = [k for k, v in out.items() if isinstance(v, float)]
+        for k in sc[:1]:
+            out[k] = out[k] * (1 + rng.uniform(-0.05, 0.05))
+    return out
+
+
+def _scramble(x, depth=0):
+    """modify a returned value in place, the way a caller that owns it may"""
+    import numpy as np
+    if isinstance(x, dict):
+        for k in list(x.keys()):
+            if isinstance(x[k], (dict, list, np.ndarray)) and depth < 2:
+                _scramble(x[k], depth + 1)
+            else:
+                x[k] = '<overwritten by the caller>'
+        x['<added by the caller>'] = 1
+    elif isinstance(x, list):
+        x.append('<added by the caller>')
+    elif isinstance(x, np.ndarray) and x.flags.writeable and x.dtype.kind == 'f':
+        x[...] = -12345.0
+    elif isinstance(x, tuple) and depth < 2:
+        for y in x:
+            _scramble(y, depth + 1)
+
+
 def random_falsify(unit, seed, n):
-    """run-time contract search on the real function (DESIGN 3 step 3); for units with a history harness every
-    other case is a second call on the object left by the previous case"""
+    """run-time contract search on the real function (DESIGN 3 step 3).  Besides independent random inputs, calls are
+    chained into short histories: (a) for units with an object harness a later call reuses the object left by the
+    previous case, with independent inputs or with inputs related to the previous ones (_related); units without
+    one repeat the call in the same process with related inputs (module-level state); (b) for units whose contract
+    says the caller owns the result, the result is modified in place and the same call repeated."""
     if unit.gen is None:
         return None, 0
     rng = random.Random(seed)
     tried = 0
     prev = None
     for i in range(n):
+        mode = 'fresh'
+        if prev is not None:
+            r = i % 4
+            if r == 1:
+                mode = 'related'
+            elif r == 2 and unit.fresh_result:
+                mode = 'same-after-caller-modified-result'
+            elif r == 3 and unit.native_obj is not None:
+                mode = 'independent-on-same-object'
         try:
-            vals = unit.gen(rng)
+            if mode == 'related':
+                vals = _related(rng, prev[0])
+            elif mode == 'same-after-caller-modified-result':
+                vals = copy.deepcopy(prev[0])
+                _scramble(prev[2])
+            else:
+                vals = unit.gen(rng)
         except Exception:
             continue
         keep = {}
-        use_prev = unit.native_obj is not None and prev is not None and i % 2 == 1
+        use_prev = mode != 'fresh' and unit.native_obj is not None
         nat = native_check(unit, vals, obj=prev[1] if use_prev else None, keep=keep)
         if nat['status'] == 'pre-false':
             continue
         tried += 1
         if nat['status'] == 'violation':
             out = {'inputs': vals, 'native': nat}
-            if use_prev:
+            if mode != 'fresh':
                 out['history'] = [prev[0], vals]
-                nat['observed'] = 'second call on the same object (first inputs in history[0]): ' + str(nat.get('observed'))
+                out['history_kind'] = mode
+                nat['observed'] = 'second call (%s; first inputs in history[0]): %s' % (mode, nat.get('observed'))
             return out, tried
-        prev = (vals, keep.get('obj'))
+        prev = (vals, keep.get('obj'), keep.get('ret'))
     return None, tried
 
 
